@@ -571,6 +571,18 @@ def run(ctx):
         ctx.count()
         ctx.mark(('reset-in-same-round', which), True)
         ctx.hist('directed:reset-in-same-round')
+    # every errno of the code's own handled set, at receive and at send, at either endpoint: the flow ends, both
+    # processes live, the state at rest is quiet
+    import sshuttle.ssnet as _ssnet
+    for e in sorted(int(x) for x in _ssnet.NET_ERRS):
+        for which in ('app', 'dst'):
+            for fault in ('recv', 'send'):
+                ins, outs = tg.failure_tears_down(ctx, rng, 'C08', which, fault, err='x%d' % e)
+                all_in.append(ins)
+                all_out.append(outs)
+                ctx.count()
+                ctx.mark(('errno-sweep', e, which, fault), True)
+                ctx.hist('directed:errno-sweep')
     n = ctx.scale(60, 1500)
     for k in range(n):
         o = tg.Opts(nflows=rng.choice([1, 2, 3, 4]), steps=rng.randrange(20, 80), faults=True,
@@ -606,6 +618,8 @@ def replay(ctx, rep):
         directed(c2)
         hit = [v for v in c2.violations if v['key'] == rep['key']]
         return bool(hit), (hit[0]['observed'] if hit else 'directed case passes')
+    if ':work:' in rep.get('key', ''):
+        return tg.replay_work(case)
     s, wrote = tg.replay_script(case)
     try:
         t = s.t
